@@ -704,13 +704,17 @@ def fold_mul(d):
     return f
 
 
+_KWARG_ALIASES = {'axis': 'dim', 'keepdims': 'keepdim'}
+
+
 def bind(args, kwargs, names, defaults=None):
     defaults = defaults or {}
     out = dict(defaults)
     for n, a in zip(names, args):
         out[n] = a
     for k, v in kwargs.items():
-        out[k] = v
+        # torch accepts the numpy spellings axis= / keepdims= for dim= / keepdim=
+        out[_KWARG_ALIASES.get(k, k) if _KWARG_ALIASES.get(k) in names else k] = v
     return out
 
 
